@@ -197,6 +197,56 @@ def accessors_and_more(rep: Report, rng: random.Random):
             rep.violation({"family": "VmapMixture", "what": "NaN"}, "VmapMixture log_prob is NaN")
 
 
+def after_the_parameters_moved(rep: Report, rng: random.Random, thorough: bool):
+    """The accessors determine the density also after training: every trainable leaf of a named family is moved (as an
+    optimiser would), the accessors are read back and log_prob must be the textbook density at those values."""
+    from flowjax import distributions as ds
+    from flowjax.wrappers import NonTrainable
+    table = {"Normal": ("loc", "scale"), "Gumbel": ("loc", "scale"), "Cauchy": ("loc", "scale"), "Laplace": ("loc", "scale"),
+             "Logistic": ("loc", "scale"), "StudentT": ("df", "loc", "scale"), "LogNormal": ("loc", "scale"),
+             "Exponential": ("rate",), "Uniform": ("minval", "maxval")}
+    init = {"df": [2.5, 7.0], "loc": [0.3, -1.0], "scale": [0.5, 2.0], "rate": [0.7, 3.0], "minval": [-1.0, 0.5], "maxval": [2.0, 4.0]}
+    for fam, names in table.items():
+        for rep_i in range(4 if thorough else 2):
+            rs = np.random.default_rng(rng.randrange(2**31))
+            d = getattr(ds, fam)(*[jnp.asarray(init[n]) for n in names])
+            params, static = eqx.partition(d, eqx.is_inexact_array, is_leaf=lambda leaf: isinstance(leaf, NonTrainable))
+            leaves, td = jax.tree_util.tree_flatten(params)
+            moved = [leaf + jnp.asarray(rs.normal(size=leaf.shape) * [0.3, 1.5][rep_i % 2]) for leaf in leaves]
+            d2 = eqx.combine(jax.tree_util.tree_unflatten(td, moved), static)
+            try:
+                if fam == "LogNormal":      # no accessors of its own: the documented composition Exp after Affine(loc, scale)
+                    from flowjax.wrappers import unwrap
+                    try:
+                        aff = unwrap(d2.bijection[0])
+                        aff.loc, aff.scale
+                    except Exception:  # noqa: BLE001   (an implementation detail, not an accessor the property names)
+                        rep.note("model-drift Families: LogNormal is no longer Chain([Affine(loc, scale), Exp]); its parameters after training are not read back")
+                        break
+                    acc = [np.asarray(aff.loc, float).reshape(-1).tolist(), np.asarray(aff.scale, float).reshape(-1).tolist()]
+                else:
+                    acc = [np.asarray(getattr(d2, n), float).reshape(-1).tolist() for n in names]
+                if fam == "LogNormal":
+                    xs = np.exp(rs.normal(size=2))
+                elif fam == "Exponential":
+                    xs = rs.uniform(0.1, 3.0, size=2)
+                elif fam == "Uniform":
+                    xs = np.asarray(acc[0]) + rs.uniform(0.1, 0.9, size=2) * (np.asarray(acc[1]) - np.asarray(acc[0]))
+                else:
+                    xs = rs.normal(size=2) * 3
+                lp = float(d2.log_prob(jnp.asarray(xs)))
+            except Exception as e:  # noqa: BLE001
+                rep.violation({"family": fam, "what": "after the parameters moved", "error": type(e).__name__},
+                              f"{fam} after moving {len(leaves)} trainable leaves: {type(e).__name__}: {str(e)[:200]}")
+                continue
+            rep.count(1, ("moved", fam, rep_i))
+            ref = textbook(fam, acc, xs.tolist())
+            if not abs(lp - ref) <= 1e-9 * (1 + abs(ref)):
+                rep.violation({"family": fam, "what": "density is not the textbook density at the accessor values after the parameters moved"},
+                              f"{fam}: after moving all {len(leaves)} trainable leaves the accessors read "
+                              f"{dict(zip(names, acc))}; log_prob({xs.tolist()}) = {lp}, the textbook density at those values is {ref}")
+
+
 def rejection_loop(rep: Report, rng: random.Random):
     """Beyond the listed properties (DESIGN 4.11): the rejection loop of GaussianMixtureSimulator.sample_reference_posterior
     (Rejection.tla): exactly num_samples rows are returned, all inside the Uniform prior's support, also when the
@@ -252,6 +302,7 @@ def main():
         rep.sample({"kind": "spec->code", "tlc_case": c}, 4)
         check_case(rep, c)
     accessors_and_more(rep, rng)
+    after_the_parameters_moved(rep, rng, t == "thorough")
     rejection_loop(rep, rng)
     rep.set("exhaustive", True)
     rep.set("rule", "one case per (family, parameter configuration, point) state of the TLC run, judged against the textbook "
